@@ -57,6 +57,86 @@ pub fn c03_check<L: KeyboardLayout, O: CharOracle>(name: &str, l: &L, caps: bool
     kani::cover!(true);
 }
 
+/// Thorough, end to end: a symbolic character key is turned into its Set 2 (or Set 1) byte sequence
+/// by the reference table, fed to a Keyboard after a symbolic level-selecting modifier was pressed
+/// the same way, and the decoded character is checked against the same oracle.
+pub fn c03_e2e<L: KeyboardLayout, O: CharOracle>(name: &str, layout: L, set2: bool) {
+    use crate::gen_oracle::{ref_set1_seq, ref_set2_seq};
+    let h = any_mode();
+    let k = any_key();
+    kani::assume(!is_modifier_key(k));
+    let level: u8 = kani::any();
+    kani::assume(level < 3);
+    let modkey = match level {
+        0 => None,
+        1 => Some(if kani::any() { KeyCode::LShift } else { KeyCode::RShift }),
+        _ => Some(KeyCode::RAltGr),
+    };
+    let seq_of = |key: KeyCode| if set2 { ref_set2_seq(key) } else { ref_set1_seq(key) };
+    let kseq = seq_of(k);
+    kani::assume(kseq.is_some());
+    let (kp, kc) = kseq.unwrap_or((0, 0));
+    // open known findings (Set 1 JIS keys) are excluded here exactly as in C02
+    kani::assume(set2 || !crate::gen_known::known_set1_transition(kp, kc));
+    let out;
+    if set2 {
+        let mut kb = Keyboard::new(ScancodeSet2::new(), layout, h);
+        if let Some(mk) = modkey {
+            let (mp, mc) = ref_set2_seq(mk).unwrap_or((0, 0));
+            if mp == 1 {
+                let _ = kb.add_byte(0xE0);
+            }
+            if let Ok(Some(ev)) = kb.add_byte(mc) {
+                let _ = kb.process_keyevent(ev);
+            }
+        }
+        if kp == 1 {
+            let _ = kb.add_byte(0xE0);
+        } else if kp == 2 {
+            let _ = kb.add_byte(0xE1);
+        }
+        out = match kb.add_byte(kc) {
+            Ok(Some(ev)) => kb.process_keyevent(ev),
+            _ => None,
+        };
+    } else {
+        let mut kb = Keyboard::new(ScancodeSet1::new(), layout, h);
+        if let Some(mk) = modkey {
+            let (mp, mc) = ref_set1_seq(mk).unwrap_or((0, 0));
+            if mp == 1 {
+                let _ = kb.add_byte(0xE0);
+            }
+            if let Ok(Some(ev)) = kb.add_byte(mc) {
+                let _ = kb.process_keyevent(ev);
+            }
+        }
+        if kp == 1 {
+            let _ = kb.add_byte(0xE0);
+        } else if kp == 2 {
+            let _ = kb.add_byte(0xE1);
+        }
+        out = match kb.add_byte(kc) {
+            Ok(Some(ev)) => kb.process_keyevent(ev),
+            _ => None,
+        };
+    }
+    crate::show!("C03 e2e {} set{} key={:?} seq=({},{:#04x}) level={} mode={:?} out={:?}", name, if set2 { 2 } else { 1 }, k, kp, kc, level, h, out);
+    if level < 2 {
+        if O::ok(k, level, '\0').is_some() {
+            match out {
+                Some(DecodedKey::Unicode(c)) => assert!(O::ok(k, level, c) == Some(true), "C03: end-to-end character differs from the national layout standard"),
+                _ => assert!(false, "C03: end-to-end - character key did not produce a character"),
+            }
+        }
+    } else if let Some(DecodedKey::Unicode(c)) = out {
+        // AltGr level: either the key has no AltGr character (then it types what it types without AltGr) or the standard's
+        if O::ok(k, 2, c) != Some(true) {
+            assert!(O::ok(k, 0, c) != Some(false), "C03: end-to-end AltGr character is neither the standard's AltGr nor the base character");
+        }
+    }
+    kani::cover!(level == 2 && matches!(out, Some(DecodedKey::Unicode(_))));
+}
+
 macro_rules! c03_layout {
     ($short:ident, $ty:ident) => {
         pub mod $short {
@@ -72,6 +152,14 @@ macro_rules! c03_layout {
             #[kani::proof]
             pub fn c03_t_any() {
                 c03_check::<_, chars::$ty>(concat!("AnyLayout::", stringify!($ty)), &AnyLayout::$ty($ty), true);
+            }
+            #[kani::proof]
+            pub fn c03_t_e2e_set2() {
+                c03_e2e::<_, chars::$ty>(stringify!($ty), $ty, true);
+            }
+            #[kani::proof]
+            pub fn c03_t_e2e_set1() {
+                c03_e2e::<_, chars::$ty>(stringify!($ty), $ty, false);
             }
             #[kani::proof]
             pub fn c03_t_anyref() {
